@@ -310,6 +310,7 @@ class Lower:
                 if segs[0] not in env: self.fail(f"unknown name `{segs[0]}`")
                 return k(*env[segs[0]])
             if segs[-2] == "SchemeType" and segs[-1] in self.gen.scheme: return k(str(self.gen.scheme[segs[-1]]), "SchemeType")
+            if segs[-1] == "CIPHERTEXT_SEED_FLAG" and segs[-2] == "text": return k(str(self.gen.seed_flag), "u64")
             self.fail(f"path {'::'.join(segs)}")
         if tag in ("deref", "ref"): return self.ce(e[-1], env, k)
         if tag == "cast":
@@ -360,9 +361,9 @@ class Lower:
                 def kj(ci, ti):
                     if isinstance(tb, tuple) and tb[0] in ("arr", "bytes") and e[2][0] == "num" and e[2][1] < tb[2]:
                         return k(f"({cb}.getD {ci} 0)", tb[1] if tb[0] == "arr" else "u8")
-                    if isinstance(tb, tuple) and tb[0] in ("vec", "arr") and self.mode in ("P", "W") and self.is_nat(tb[1]):
+                    if isinstance(tb, tuple) and tb[0] in ("vec", "arr") and self.mode in ("P", "W", "R") and self.is_nat(tb[1]):
                         v = self.fresh()
-                        return self.bind(f"pidx {cb} {ci}" if self.mode == "P" else f"wlift (pidx {cb} {ci})", v, k(v, tb[1]))
+                        return self.bind(f"pidx {cb} {ci}" if self.mode == "P" else f"{self.m}lift (pidx {cb} {ci})", v, k(v, tb[1]))
                     self.fail(f"indexing a value of type {tb} (mode {self.mode})")
                 return self.ce(e[2], env, kj)
             return self.ce(e[1], env, ki)
@@ -520,14 +521,14 @@ class Lower:
             res = {}
             def kb(cb, tb): res["t"] = tb; return self.pure(cb)
             outer = (self.mode, self.m)
-            if self.mode == "W": self.mode, self.m = "P", "p"        # the closure is a partial PURE computation; its failure is a panic of the writer
+            if self.mode in ("W", "R"): self.mode, self.m = "P", "p"        # the closure is a partial PURE computation; its failure is a panic
             try: inner = self.ce(body[1], env2, kb)
             finally: self.mode, self.m = outer
             if self.mode == "T": return k(f"(List.map (fun {self.lname(x)} => {inner}) {c})", ("vec", res["t"]))
-            if self.mode not in ("P", "W"): self.fail("`.map` with effects in a reader")
+            if self.mode not in ("P", "W", "R"): self.fail("`.map` with effects in a total function")
             v = self.fresh()
             call = f"pmapM (fun {self.lname(x)} =>\n{inner}) {c}"
-            return self.bind(call if self.mode == "P" else f"wlift ({call})", v, k(v, ("vec", res["t"])))
+            return self.bind(call if self.mode == "P" else f"{self.m}lift ({call})", v, k(v, ("vec", res["t"])))
         return self.ce(src, env, ks)
 
     # ---- monadic calls: returns a function taking k(monadic code, result type)
@@ -605,6 +606,27 @@ class Lower:
             return kend(env)
         s = stmts[0]; rest = lambda env2: self.cs(stmts[1:], tail, env2, kend, kval)
         tag = s[0]; ln = s[-1] if isinstance(s[-1], int) else None
+        if tag == "let" and isinstance(s[1], str) and s[4] is not None and s[4][0] == "ref" and s[4][1] and s[4][2][0] == "index" \
+                and s[4][2][1][0] == "path" and len(s[4][2][1][1]) == 1 and s[4][2][2][0] == "range":
+            # a mutable WINDOW `let w = &mut v[lo..hi];`: value semantics = copy out (bounds-checked), work on the copy, write back when the
+            # enclosing block ends (`w` is not used after it; `v` is not touched while `w` lives: the borrow checker guarantees both)
+            x = s[4][2][1][1][0]; rng = s[4][2][2]
+            if x not in env or rng[1] is None or rng[2] is None or rng[3]: self.fail("window form", ln)
+            if kend is None or self.mode != "R": self.fail("a mutable window outside a reader's loop / branch body", ln)
+            cx, tx_ = env[x]
+            if not (isinstance(tx_, tuple) and tx_[0] == "vec" and self.is_nat(tx_[1])): self.fail("window of a non-vector", ln)
+            w = self.lname(s[1]); self.nwin = getattr(self, "nwin", 0) + 1; lo_, hi_ = f"wlo{self.nwin}", f"whi{self.nwin}"
+            def klo(cl, tl):
+                def khi(ch, th):
+                    env2 = dict(env); env2[s[1]] = (w, tx_)
+                    def kend2(env3):
+                        env4 = dict(env3); env4.pop(s[1], None)
+                        return self.let(cx, f"{cx}.take {lo_} ++ {env3[s[1]][0]} ++ {cx}.drop {hi_}", kend(env4))
+                    body = self.cs(stmts[1:], tail, env2, kend2, kval)
+                    return self.let(lo_, cl, self.let(hi_, ch, f"if {lo_} ≤ {hi_} ∧ {hi_} ≤ {cx}.length then\n" +
+                                    self.let(w, f"({cx}.drop {lo_}).take ({hi_} - {lo_})", body) + f"\nelse {self.panic()}"))
+                return self.ce(rng[2], env, khi)
+            return self.ce(rng[1], env, klo)
         if tag == "let":
             _, pat, mut, ty, init, _ln = s
             if not isinstance(pat, str) or init is None: self.fail("`let` form", ln)
@@ -729,6 +751,15 @@ class Lower:
             if x and x[0] == "assign" and x[1][0] == "path": acc.add(x[1][1][0])
             if x and x[0] == "assign" and x[1][0] == "index" and x[1][1][0] == "path": acc.add(x[1][1][1][0])
             if x and x[0] == "mcall" and x[2] == "push" and x[1][0] == "path": acc.add(x[1][1][0])
+            if x and x[0] == "let" and isinstance(x[4], tuple) and x[4] and x[4][0] == "ref" and x[4][1] and x[4][2][0] == "index" and x[4][2][1][0] == "path":
+                acc.add(x[4][2][1][1][0])                               # `let w = &mut v[..]`: v is written back
+            if x and x[0] == "for":
+                it_ = x[2]
+                while it_[0] == "mcall" and it_[2] in ("enumerate", "chunks_mut", "iter_mut"): it_ = it_[1]
+                if x[2][0] == "mcall" and x[2][2] in ("enumerate", "iter_mut"):
+                    if it_[0] == "index": it_ = it_[1]
+                    if it_[0] == "path": acc.add(it_[1][0])              # `for .. in v.iter_mut()` / `v[a..b].iter_mut()` / `v.chunks_mut(n).enumerate()`
+                if x[2][0] == "ref" and x[2][1] and x[2][2][0] == "path": acc.add(x[2][2][1][0])
             for y in x: self.assigned(y, acc)
         elif isinstance(x, list):
             for y in x: self.assigned(y, acc)
@@ -744,11 +775,39 @@ class Lower:
 
     def cfor(self, s, env, rest):
         _, v, it, body, ln = s
+        if isinstance(v, tuple) and v[0] == "tuplepat" and len(v[1]) == 2 and it[0] == "mcall" and it[2] == "enumerate" and not it[3] \
+                and it[1][0] == "mcall" and it[1][2] == "chunks_mut" and len(it[1][3]) == 1 and it[1][1][0] == "path" and len(it[1][1][1]) == 1:
+            # `for (j, c) in p.chunks_mut(n).enumerate() { .. }`: the body may only change the chunk `c` (and read the stream)
+            if self.mode != "R": self.fail("chunks_mut loop outside a reader", ln)
+            jn, cn = v[1]; pv = it[1][1][1][0]; cp, tp = env[pv]
+            if not (isinstance(tp, tuple) and tp[0] == "vec" and self.is_nat(tp[1])): self.fail("chunks_mut of a non-vector", ln)
+            bad = [x for x in self.assigned(body, set()) if x in env]
+            if bad: self.fail(f"chunks_mut loop body assigns {bad}", ln)
+            def kn_(cnn, tnn):
+                env2 = dict(env); env2[jn] = (self.lname(jn), "usize"); env2[cn] = (self.lname(cn), tp)
+                inner = self.cblock(body, env2, lambda env3: self.pure(env3[cn][0]), None)
+                return f"if {cnn} = 0 then {self.panic()} else\n" + self.bind(
+                    f"rchunksM {cnn} (fun {self.lname(jn)} {self.lname(cn)} =>\n{inner}) {cp}.length 0 {cp}", cp, rest(env))
+            return self.ce(it[1][3][0], env, kn_)
         if not isinstance(v, str): self.fail("tuple pattern in `for`", ln)
         # fill form: `for x in &mut A { *x = E; }` / `for x in A.iter_mut() { *x = E; }`
         fill = None
         if it[0] == "ref" and it[1] and it[2][0] == "path": fill = it[2][1][0]
         if it[0] == "mcall" and it[2] == "iter_mut" and it[1][0] == "path": fill = it[1][1][0]
+        if it[0] == "mcall" and it[2] == "iter_mut" and it[1][0] == "index" and it[1][1][0] == "path" and it[1][2][0] == "range" \
+                and it[1][2][1] is not None and it[1][2][2] is not None and not it[1][2][3] and self.mode == "R":
+            # `for x in p[lo..hi].iter_mut() { *x = e; }`: fill a bounds-checked slice of p, write it back
+            st, tl = body; pv = it[1][1][1][0]; cp, tp = env[pv]
+            if not (len(st) == 1 and tl is None and st[0][0] == "assign" and st[0][1] == ("deref", ("path", [v])) and st[0][2] is None):
+                self.fail("`for x in p[a..b].iter_mut()` with a body other than `*x = e;`", ln)
+            if not (isinstance(tp, tuple) and tp[0] == "vec" and self.is_nat(tp[1])): self.fail("slice fill of a non-vector", ln)
+            env2 = dict(env); env2[v] = (self.lname(v), tp[1])
+            inner = self.ce(st[0][3], env2, lambda c, t: self.pure(c))
+            self.nwin = getattr(self, "nwin", 0) + 1; lo_, hi_ = f"wlo{self.nwin}", f"whi{self.nwin}"
+            return self.ce(it[1][2][1], env, lambda cl, tl_: self.ce(it[1][2][2], env, lambda ch, th_:
+                self.let(lo_, cl, self.let(hi_, ch, f"if {lo_} ≤ {hi_} ∧ {hi_} ≤ {cp}.length then\n" +
+                    self.bind(f"rfill (fun {self.lname(v)} =>\n{inner}) (({cp}.drop {lo_}).take ({hi_} - {lo_}))", "w_",
+                              self.let(cp, f"{cp}.take {lo_} ++ w_ ++ {cp}.drop {hi_}", rest(env))) + f"\nelse {self.panic()}"))))
         if fill is not None:
             st, tl = body
             if not (len(st) == 1 and tl is None and st[0][0] == "assign" and st[0][1] == ("deref", ("path", [v])) and st[0][2] is None):
@@ -791,9 +850,11 @@ class Lower:
             pats = "".join(f", {env[x][0]}" for x in state)
             text = f"{sig}\n  | []{pats} => {self.pure('(' + tup(env) + ')')}\n  | {hd} :: rest_{pats} =>\n{indent(bcode, 4)}"
             order = []                                      # the helper's own temporaries, renumbered by first occurrence (u1, u2, ..)
-            for m_ in re.finditer(r"\bt\d+\b", text):
+            for m_ in re.finditer(r"\b(?:t|wlo|whi)\d+\b", text):
                 if m_.group() not in order: order.append(m_.group())
-            text = re.sub(r"\bt\d+\b", lambda m_: "u%d" % (order.index(m_.group()) + 1), text)
+            pref = lambda nm: re.match(r"[a-z]+", nm).group()
+            num = lambda nm: [x for x in order if pref(x) == pref(nm)].index(nm) + 1
+            text = re.sub(r"\b(?:t|wlo|whi)\d+\b", lambda m_: ("u%d" if pref(m_.group()) == "t" else pref(m_.group()) + "_%d") % num(m_.group()), text)
             if text in self.loops: real = self.loops[text]          # the same loop again (duplicated continuation): one definition
             else:
                 self.nloop += 1; real = f"{self.name}_loop{self.nloop}"; self.loops[text] = real
@@ -890,6 +951,13 @@ def rfill (f : Nat → Rd Nat) : List Nat → Rd (List Nat)
   | [] => rpure []
   | x :: xs => rbind (f x) fun v => rbind (rfill f xs) fun vs => rpure (v :: vs)
 
+/-- `for (j, c) in v.chunks_mut(n).enumerate() { c := f j c }` (n > 0; the last chunk may be shorter); fuel = the number of elements -/
+def rchunksM (n : Nat) (f : Nat → List Nat → Rd (List Nat)) : Nat → Nat → List Nat → Rd (List Nat)
+  | 0, _, _ => rpure []
+  | fuel + 1, j, v =>
+    if v.isEmpty then rpure []
+    else rbind (f j (v.take n)) fun c => rbind (rchunksM n f fuel (j + 1) (v.drop n)) fun r => rpure (c ++ r)
+
 /-- a partial pure computation inside a reader: its failure is a panic -/
 def rlift {α : Type} (r : R α) : Rd α := fun bs =>
   match r with
@@ -951,6 +1019,10 @@ class Gen:
         self.done = {}; self.rets = {}; self.Parser = make_parser(T)
         self.src = T.strip_comments(open(os.path.join(self.repo, SR)).read())
         self.read_enums(); self.read_sizes(); self.check_setters()
+        tx = T.strip_comments(open(os.path.join(self.repo, "src/text.rs")).read())
+        m = re.search(r"\bconst\s+CIPHERTEXT_SEED_FLAG\s*:\s*u64\s*=\s*(0x[0-9A-Fa-f_]+|[0-9_]+)\s*;", tx)
+        self.need(m, "const CIPHERTEXT_SEED_FLAG not found in src/text.rs")
+        self.seed_flag = int(m.group(1).replace("_", ""), 0)
 
     def need(self, cond, what):
         if not cond: raise self.T.Unsupported(f"stream mode: {what}")
@@ -1085,6 +1157,7 @@ TABLE = (
        {"fn": "serialize", "impl": "SerializableWithHeContext for RelinKeys", "selfty": "RelinKeys", "mode": "W", "lean": "relin_serialize", "where": "impl SerializableWithHeContext for RelinKeys :: serialize", "ctx_first": True},
        {"fn": "serialize", "impl": "SerializableWithHeContext for GaloisKeys", "selfty": "GaloisKeys", "mode": "W", "lean": "galois_serialize", "where": "impl SerializableWithHeContext for GaloisKeys :: serialize", "ctx_first": True},
        {"fn": "deserialize_full", "impl": "Ciphertext", "selfty": "Ciphertext", "mode": "R", "lean": "ct_deserialize_full", "where": "impl Ciphertext :: deserialize_full", "ctx_first": True, "expand": True},
+       {"fn": "deserialize", "impl": "SerializableWithHeContext for Ciphertext", "selfty": "Ciphertext", "mode": "R", "lean": "ct_deserialize", "where": "impl SerializableWithHeContext for Ciphertext :: deserialize", "ctx_first": True, "expand": True},
        {"fn": "serialized_full_size", "impl": "Ciphertext", "selfty": "Ciphertext", "mode": "P", "lean": "ct_serialized_full_size", "where": "impl Ciphertext :: serialized_full_size", "ctx_first": True},
        {"fn": "serialized_size", "impl": "SerializableWithHeContext for Ciphertext", "selfty": "Ciphertext", "mode": "P", "lean": "ct_serialized_size", "where": "impl SerializableWithHeContext for Ciphertext :: serialized_size", "ctx_first": True},
        {"fn": "serialized_terms_size", "impl": "Ciphertext", "selfty": "Ciphertext", "mode": "P", "lean": "ct_serialized_terms_size", "where": "impl Ciphertext :: serialized_terms_size", "ctx_first": True}]
